@@ -27,6 +27,13 @@ def regen(ctx):
          "ds/list_impl.go:threadSafeList.Values", "ds/list_impl.go:threadSafeList.PushBack",
          "ds/list_impl.go:threadSafeList.Remove", "ds/list_impl.go:threadSafeList.Range",
          "ds/list_impl.go:list.Values", "ds/list_impl.go:list.Range",
+         # ... and what Remove / PushBack / the walk do to the links and the length counter (the model's `listed`)
+         "ds/list_impl.go:list.Remove", "ds/list_impl.go:list.remove", "ds/list_impl.go:list.PushBack",
+         "ds/list_impl.go:list.insert", "ds/list_impl.go:list.Front", "ds/list_impl.go:listElement.Next",
+         "ds/list_impl.go:type=list", "ds/list_impl.go:type=listElement",
+         # the remaining writers of Set are all Apply; the id counter
+         R + "set_impl.go:set.Add", R + "set_impl.go:set.AddAll", R + "set_impl.go:set.Delete", R + "set_impl.go:set.DeleteAll",
+         R + "utils.go:uniqueID.Next",
          # type facts: which mutex a selector resolves to, and the width of the update id
          R + "variable_impl.go:type=variable", R + "variable_impl.go:type=readableVariable",
          R + "set_impl.go:type=set", R + "set_impl.go:type=readableSet", R + "set_impl.go:type=derivedSet",
@@ -35,7 +42,7 @@ def regen(ctx):
         extra_methods=["LockExecution", "UnlockExecution", "MarkUnsubscribed", "Invoke", "PushBack", "Remove",
                        "Values", "Next", "updateValue", "apply", "replace", "ToSlice", "Range", "applyInheritedMutations",
                        "Get", "Set", "Compute", "Trigger", "WasTriggered", "OnTrigger", "OnUpdate", "OnUpdateWithContext", "WithValue",
-                       "InheritFrom", "Unsubscribe"])
+                       "InheritFrom", "Unsubscribe", "Apply", "Load", "Store", "remove", "insert", "insertValue", "lazyInit"])
 
 
 SPEC = {
@@ -65,7 +72,13 @@ SPEC = {
                  "C13_skeleton_variable_OnUpdateOnce", "C13_skeleton_variable_OnUpdateWithContext", "C13_skeleton_variable_WithValue",
                  "C13_skeleton_variable_WithNonEmptyValue", "C13_skeleton_variable_Read", "C13_skeleton_variable_Get",
                  "C13_skeleton_variable_Init", "C13_skeleton_variable_Set", "C13_skeleton_variable_DefaultTo",
-                 "C13_skeleton_variable_ToggleValue", "C13_skeleton_variable_InheritFrom", "C13_skeleton_variable_DeriveValueFrom"],
+                 "C13_skeleton_variable_ToggleValue", "C13_skeleton_variable_InheritFrom", "C13_skeleton_variable_DeriveValueFrom",
+                 "C13_directed_reachable", "C13_directed_logs_ok", "C13_directed_unsubscribed_in_snapshot_example",
+                 "C13_early_return_is_noop", "C13_variable_never_early", "C13_idle_call_quiet",
+                 "C13_skeleton_list_inner_Remove", "C13_skeleton_list_inner_remove", "C13_skeleton_list_inner_PushBack",
+                 "C13_skeleton_list_inner_insert", "C13_skeleton_list_inner_Front", "C13_skeleton_listElement_Next",
+                 "C13_skeleton_type_list", "C13_skeleton_type_listElement", "C13_skeleton_set_Add", "C13_skeleton_set_AddAll",
+                 "C13_skeleton_set_Delete", "C13_skeleton_set_DeleteAll", "C13_skeleton_uniqueID_Next"],
     "trusted_base": [
         "hand-written protocol model Hive/Model/Reactive.lean (+ ReactiveInst.lean) of ds/reactive variable_impl.go / set_impl.go / "
         "event_impl.go / utils.go, tied by (a) regenerated synchronisation skeletons stated as theorems, (b) differential execution of "
